@@ -25,10 +25,14 @@ pub struct Case {
     /// the same planner and problem object were first used in an obstacle-free environment
     /// (setup + solve) before the environment under test was installed by a second setup
     pub warm_start: bool,
+    /// uniform samples come from this list (cyclic) - an alphabet with duplicates, so that
+    /// zero-length edges and equal costs occur - instead of the planner's generator
+    pub script: Option<Vec<Vec<f64>>>,
 }
 impl Case {
     pub fn to_json(&self) -> Value {
-        json!({"kind":"c06","problem":self.problem.to_json(),"params":self.params.to_json(),"t_ticks":self.t_ticks,"build_ticks":self.build_ticks,"budget":self.budget,"real_time_ms":self.real_time_ms,"warm_start":self.warm_start})
+        json!({"kind":"c06","problem":self.problem.to_json(),"params":self.params.to_json(),"t_ticks":self.t_ticks,"build_ticks":self.build_ticks,"budget":self.budget,"real_time_ms":self.real_time_ms,"warm_start":self.warm_start,
+               "script":self.script.as_ref().map(|l| l.iter().map(|s| crate::util::fjs(s)).collect::<Vec<_>>())})
     }
     pub fn from_json(v: &Value) -> Case {
         Case {
@@ -39,6 +43,7 @@ impl Case {
             budget: v["budget"].as_u64().unwrap_or(4_000_000),
             real_time_ms: v["real_time_ms"].as_u64(),
             warm_start: v["warm_start"].as_bool().unwrap_or(false),
+            script: v["script"].as_array().map(|a| a.iter().map(crate::util::parse_fs).collect()),
         }
     }
 }
@@ -86,7 +91,14 @@ pub fn make_case(r: &mut Sm, idx: usize) -> Case {
         _ => r.log_range(2.0, 600.0) as u64,
     };
     let warm_start = r.bool(0.25);
-    Case { problem, params, t_ticks, build_ticks, budget: 1_000_000, real_time_ms: None, warm_start }
+    let script = if planner != PKind::Prm && lvs > 0.0 && r.bool(0.12) {
+        let al = crate::world::alphabet(r, &problem, 3);
+        let len = 8 + r.below(40);
+        Some((0..len).map(|_| al[r.below(al.len())].clone()).collect::<Vec<_>>())
+    } else {
+        None
+    };
+    Case { problem, params, t_ticks, build_ticks, budget: 1_000_000, real_time_ms: None, warm_start, script }
 }
 
 fn run_case<K: Kit>(ctx: &Ctx, b: &mut Batch, kit: &K, case: &Case) {
@@ -151,7 +163,14 @@ fn run_case<K: Kit>(ctx: &Ctx, b: &mut Batch, kit: &K, case: &Case) {
         }
     }
     let case = &case_owned;
-    let Ok(mut inst) = d.install(&case.problem, SampleMode::PlannerRng) else { return };
+    let mode = match &case.script {
+        Some(s) if !s.is_empty() => {
+            b.count("scripted_cases", 1);
+            SampleMode::Scripted(s.clone())
+        }
+        _ => SampleMode::PlannerRng,
+    };
+    let Ok(mut inst) = d.install(&case.problem, mode) else { return };
     if case.warm_start && lvs > 0.0 {
         // first life: the same problem object in an empty environment
         let mut free = case.problem.clone();
